@@ -226,6 +226,8 @@ def do_check(prop, tier, seed, args):
             "samples_streamed_through_update": int(stats.get("samples_streamed", 0)),
         },
         "runs_per_hour": round(n_ok / wall * 3600) if wall > 0 else 0,
+        "seeds_per_hour": round(n_ok / wall * 3600) if wall > 0 else 0,
+        "seeds_note": "every run has its own PRNG stream derived from (VERIF_SEED, property, run index): one run = one seed",
         "seeds": {"VERIF_SEED": seed, "run_indices": [indices[0], indices[-1]] if indices else []},
         "components": COMPONENTS,
         "distinct_interrupt_sites": len(stats.get("interrupt_sites", {})),
